@@ -65,8 +65,9 @@ class Recorder:
         return self.seq
 
     # -- op lifecycle ---------------------------------------------------------
-    def begin_op(self, opi, solver, faults, direct=False):
+    def begin_op(self, opi, solver, faults, direct=False, budget=None):
         self.op = OpTrace(opi)
+        self.op.budget = budget or TICK_BUDGET
         self.solver = solver
         self.direct = direct
         self.plan = {}
@@ -144,7 +145,7 @@ class Recorder:
             self.op.budget_hit = True
             self.ev("budget-nan")
             raise SimBudget("NaN time")
-        if self.op.counts["tick"] >= TICK_BUDGET:
+        if self.op.counts["tick"] >= self.op.budget:
             self.op.budget_hit = True
             self.ev("budget")
             raise SimBudget("tick budget exhausted")
@@ -183,7 +184,7 @@ class Recorder:
         s.dig_in = digest_field(f)
         s.data_in = [np.array(d, copy=True) for d in f.data]
         s.etick = None
-        if self.op.counts["step"] >= 4 * TICK_BUDGET:
+        if self.op.counts["step"] >= 4 * self.op.budget:
             self.op.budget_hit = True
             self.ev("budget-steps")
             raise SimBudget("step budget exhausted")
@@ -247,7 +248,9 @@ class Recorder:
         if op is None or self.direct:
             return
         qn = getattr(self.solver, "Qn", None)
-        for s in op.steps:
+        start = getattr(op, "_resolved", 0)
+        op._resolved = max(0, len(op.steps) - 1) if self.cur_step is not None else len(op.steps)
+        for s in op.steps[start:]:
             if s.kind is None and s.status == "ok":
                 s.kind = "full" if (qn is s.obj) else "side"
                 self.ev("class", s.idx, s.kind)
